@@ -47,8 +47,9 @@ Inductive field :=
   (* hierarchy: description (indices, links, Gamma, lam, gamma, kBT), auxiliary operators, report *)
   | HyDesc | HyAdo | HyHpop | HeomConf | HeomDesc
   | EsoData (e : ek) | EsoRwa (e : ek) | EsoConf (e : ek)
-  (* arguments of the call: Nref, order L of the expansion, coupling cut-off *)
-  | ArgNref | ArgL | ArgCut
+  (* arguments of the call: Nref, order L of the expansion, coupling cut-off, and the energy units
+     current while the call is made (0 = internal; not state a call may change) *)
+  | ArgNref | ArgL | ArgCut | ArgUnits
   (* result of the call and locals *)
   | Res | Tmp0 | Tmp1 | Tmp2.
 
@@ -92,7 +93,7 @@ Definition field_eqb (a b : field) : bool :=
   | Time, Time | Rho, Rho | Psi, Psi | Pop, Pop | PDephL, PDephL | PDephG, PDephG | Mgr, Mgr
   | SysCache, SysCache | SvConf, SvConf | KK, KK | PopConf, PopConf
   | HyDesc, HyDesc | HyAdo, HyAdo | HyHpop, HyHpop | HeomConf, HeomConf | HeomDesc, HeomDesc
-  | ArgNref, ArgNref | ArgL, ArgL | ArgCut, ArgCut
+  | ArgNref, ArgNref | ArgL, ArgL | ArgCut, ArgCut | ArgUnits, ArgUnits
   | Res, Res | Tmp0, Tmp0 | Tmp1, Tmp1 | Tmp2, Tmp2 => true
   | Tens x, Tens y | TensHam x, TensHam y | TensIt x, TensIt y => tk_eqb x y
   | PConf x, PConf y | PIterm x, PIterm y | PExpo x, PExpo y | PRest x, PRest y => pk_eqb x y
@@ -204,8 +205,10 @@ Definition relt_body (k : tk) : prog :=
         (Tmp2, r HamData) ]
   | F | TDF =>
       [ (CCHofts, ap KC2H [r Sbi]);                                 (* sbi.CC.create_one_integral() *)
-        (Tmp0, ap (KFoerster k) [r HamData; r Sbi; r CCHofts]);
-        (Tmp2, ap KDiag0 [r HamData; r HamRest]) ]                  (* ham_0: diagonal, same RWA *)
+        (Tmp0, ap (KFoerster k) [r HamData; r Sbi; r CCHofts; r ArgUnits]);
+        (* ham_0 = Hamiltonian(data = diagonal of ham._data): the constructor reads the numbers in the
+           units current at the call *)
+        (Tmp2, ap KDiag0 [r HamData; r HamRest; r ArgUnits]) ]
   | CRF =>
       [ (HamJR, ap KSubJR [r HamData; r ArgCut]);                   (* subtract_cutoff_coupling *)
         (HamData, ap KSubData [r HamData; r ArgCut]);
@@ -301,7 +304,7 @@ Definition eso_args (e : ek) : list expr :=
   match e with EPD => [r PDephL] | EPDG => [r PDephG] | _ => [] end.
 
 Definition rate_prog : prog :=
-  [ (HamProt, c CTrue); (Res, ap KRate [r HamData; r Sbi]); (HamProt, c CFalse) ].
+  [ (HamProt, c CTrue); (Res, ap KRate [r HamData; r Sbi; r ArgUnits]); (HamProt, c CFalse) ].
 
 Definition prog_of (v : variant) (s : shape) : prog :=
   match s with
@@ -343,13 +346,13 @@ Definition api (s : shape) : bool :=
   end.
 
 (* ---- calls and histories --------------------------------------------------------------------- *)
-Record call := mkCall { sh : shape; a_nref : nat; a_L : nat; a_cut : nat }.
+Record call := mkCall { sh : shape; a_nref : nat; a_L : nat; a_cut : nat; a_units : nat }.
 
 Section Hist.
   Variable I : interp.
   Definition setargs (w : world I) (cl : call) : world I :=
-    upd (upd (upd w ArgNref (isym I (CNat (a_nref cl)))) ArgL (isym I (CNat (a_L cl))))
-        ArgCut (isym I (CNat (a_cut cl))).
+    upd (upd (upd (upd w ArgNref (isym I (CNat (a_nref cl)))) ArgL (isym I (CNat (a_L cl))))
+             ArgCut (isym I (CNat (a_cut cl)))) ArgUnits (isym I (CNat (a_units cl))).
   Definition docall (v : variant) (w : world I) (cl : call) : world I :=
     exec (prog_of v (sh cl)) (setargs w cl).
   Definition run (v : variant) (h : list call) (w : world I) : world I := fold_left (docall v) h w.
@@ -397,19 +400,19 @@ Definition all_fields : list field :=
   map PConf all_pk ++ map PIterm all_pk ++ map PExpo all_pk ++ map PRest all_pk ++
   [SvConf; KK; PopConf; HyDesc; HyAdo; HyHpop; HeomConf; HeomDesc] ++
   map EsoData all_ek ++ map EsoRwa all_ek ++ map EsoConf all_ek ++
-  [ArgNref; ArgL; ArgCut; Res; Tmp0; Tmp1; Tmp2].
+  [ArgNref; ArgL; ArgCut; ArgUnits; Res; Tmp0; Tmp1; Tmp2].
 Definition input_fields : list field := filter is_input all_fields.
 
 (* the two finite checks behind the theorems *)
 Definition preserves (v : variant) (s : shape) : bool :=
   forallb (fun f => expr_eqb (sym_run v s f) (s0 f)) input_fields.
 Definition reads_inputs_only (v : variant) (s : shape) : bool :=
-  forallb (fun f => is_input f || match f with ArgNref | ArgL | ArgCut => true | _ => false end)
+  forallb (fun f => is_input f || match f with ArgNref | ArgL | ArgCut | ArgUnits => true | _ => false end)
           (fields_of (sym_run v s Res)).
 
 (* ---- correspondence: the free run of a history, observed through equalities ------------------- *)
 Definition is_scratch (f : field) : bool :=
-  match f with ArgNref | ArgL | ArgCut | Res | Tmp0 | Tmp1 | Tmp2 => true | _ => false end.
+  match f with ArgNref | ArgL | ArgCut | ArgUnits | Res | Tmp0 | Tmp1 | Tmp2 => true | _ => false end.
 Definition tracked : list field := filter (fun f => negb (is_scratch f)) all_fields.
 
 (* fields of the object a Build call creates (not compared: they come into existence) *)
